@@ -128,6 +128,9 @@ pub enum Op
     /// 140 + 60 * `.1` manual runs of one system queued at once by a running system (one tree): trees far larger than anything the
     /// other ops build, for size thresholds
     RunMany(SysRef, u8),
+    /// a system event (event type `.1`) sent to a POOL ENTITY used as a system command: it is alive but carries no
+    /// system (or it is dead): nothing may run, the payload must be released, no residue
+    SysEventToEntity(u8, u8),
 }
 
 #[derive(Debug, Clone, Copy, PartialEq, Eq, Hash, Serialize, Deserialize)]
@@ -236,7 +239,8 @@ pub const OPK_REVOKE: usize = 16;
 pub const OPK_PROBE: usize = 17;
 pub const OPK_AUTODESPAWN: usize = 18;
 pub const OPK_RUNMANY: usize = 19;
-pub const N_OPK: usize = 20;
+pub const OPK_SYSEV_ENT: usize = 20;
+pub const N_OPK: usize = 21;
 
 #[derive(Debug, Clone)]
 pub struct Profile
@@ -297,9 +301,9 @@ impl Profile
             max_top: 12,
             max_init_regs: 6,
             max_bundle: 3,
-            //        run sev bc  eev ins mut tmu rem rmu rtr dEn dSy gc pol rPo rFr rev prb aut many
-            w_top: [8, 8, 10, 10, 8, 8, 4, 7, 5, 4, 5, 3, 2, 2, 8, 8, 6, 3, 2, 0],
-            w_script: [10, 10, 10, 10, 7, 7, 3, 6, 5, 3, 4, 3, 2, 2, 4, 4, 5, 6, 2, 1],
+            //        run sev bc  eev ins mut tmu rem rmu rtr dEn dSy gc pol rPo rFr rev prb aut many sEnt
+            w_top: [8, 8, 10, 10, 8, 8, 4, 7, 5, 4, 5, 3, 2, 2, 8, 8, 6, 3, 2, 0, 1],
+            w_script: [10, 10, 10, 10, 7, 7, 3, 6, 5, 3, 4, 3, 2, 2, 4, 4, 5, 6, 2, 1, 1],
             w_shape: [10, 5, 2, 1, 1, 2],
             w_result: [6, 3, 1],
             w_regmode: [5, 3, 3],
@@ -326,22 +330,22 @@ impl Profile
     pub fn for_prop(prop: &str) -> Self
     {
         let mut p = Profile::general();
-        //                      run sev bc  eev ins mut tmu rem rmu rtr dEn dSy gc pol rPo rFr rev prb aut many
+        //                      run sev bc  eev ins mut tmu rem rmu rtr dEn dSy gc pol rPo rFr rev prb aut many sEnt
         match prop
         {
             "C01" =>
             {
                 p.name = "dispatch";
-                p.w_top = [2, 2, 10, 10, 8, 8, 4, 3, 6, 4, 3, 2, 1, 1, 12, 12, 5, 1, 1, 0];
-                p.w_script = [4, 3, 10, 10, 8, 8, 4, 3, 6, 3, 3, 2, 1, 1, 8, 8, 6, 1, 1, 1];
+                p.w_top = [2, 2, 10, 10, 8, 8, 4, 3, 6, 4, 3, 2, 1, 1, 12, 12, 5, 1, 1, 0, 1];
+                p.w_script = [4, 3, 10, 10, 8, 8, 4, 3, 6, 3, 3, 2, 1, 1, 8, 8, 6, 1, 1, 1, 1];
                 p.max_init_regs = 10;
                 p.max_bundle = 4;
             }
             "C02" | "C09" | "C12" | "C03" | "C13" =>
             {
                 p.name = "recursion";
-                p.w_top = [10, 10, 10, 8, 4, 5, 2, 3, 4, 2, 2, 2, 1, 1, 8, 5, 2, 1, 2, 0];
-                p.w_script = [14, 16, 12, 10, 4, 6, 2, 3, 4, 2, 2, 3, 1, 1, 3, 2, 2, 2, 2, 1];
+                p.w_top = [10, 10, 10, 8, 4, 5, 2, 3, 4, 2, 2, 2, 1, 1, 8, 5, 2, 1, 2, 0, 1];
+                p.w_script = [14, 16, 12, 10, 4, 6, 2, 3, 4, 2, 2, 3, 1, 1, 3, 2, 2, 2, 2, 1, 1];
                 p.p_self = 110;
                 p.max_scripts = 4;
                 p.max_script_ops = 6;
@@ -363,8 +367,8 @@ impl Profile
             "C04" =>
             {
                 p.name = "probes";
-                p.w_top = [6, 8, 10, 10, 6, 6, 3, 4, 4, 2, 3, 2, 1, 1, 8, 6, 3, 6, 1, 0];
-                p.w_script = [8, 8, 8, 8, 5, 5, 2, 4, 3, 2, 3, 2, 1, 1, 3, 2, 3, 16, 1, 1];
+                p.w_top = [6, 8, 10, 10, 6, 6, 3, 4, 4, 2, 3, 2, 1, 1, 8, 6, 3, 6, 1, 0, 1];
+                p.w_script = [8, 8, 8, 8, 5, 5, 2, 4, 3, 2, 3, 2, 1, 1, 3, 2, 3, 16, 1, 1, 1];
                 p.w_shape = [8, 8, 2, 1, 1, 2];
                 p.w_result = [5, 4, 2];
                 p.p_err = 70;
@@ -373,8 +377,8 @@ impl Profile
             "C05" =>
             {
                 p.name = "payloads";
-                p.w_top = [3, 10, 12, 12, 3, 3, 1, 2, 2, 1, 5, 6, 2, 1, 10, 8, 5, 1, 1, 0];
-                p.w_script = [5, 12, 12, 12, 3, 3, 1, 2, 2, 1, 5, 7, 2, 1, 4, 3, 6, 1, 1, 1];
+                p.w_top = [3, 10, 12, 12, 3, 3, 1, 2, 2, 1, 5, 6, 2, 1, 10, 8, 5, 1, 1, 0, 3];
+                p.w_script = [5, 12, 12, 12, 3, 3, 1, 2, 2, 1, 5, 7, 2, 1, 4, 3, 6, 1, 1, 1, 3];
                 p.w_key = [10, 8, 9, 2, 2, 2, 1, 1, 1, 2, 2];
                 p.w_shape = [8, 4, 4, 3, 1, 2];
                 p.p_self = 90;
@@ -382,8 +386,8 @@ impl Profile
             "C06" =>
             {
                 p.name = "revocation";
-                p.w_top = [2, 2, 8, 8, 6, 6, 3, 3, 5, 3, 3, 1, 1, 1, 8, 14, 12, 1, 1, 0];
-                p.w_script = [4, 3, 10, 10, 7, 7, 3, 3, 5, 3, 2, 1, 1, 1, 3, 8, 16, 1, 1, 1];
+                p.w_top = [2, 2, 8, 8, 6, 6, 3, 3, 5, 3, 3, 1, 1, 1, 8, 14, 12, 1, 1, 0, 1];
+                p.w_script = [4, 3, 10, 10, 7, 7, 3, 3, 5, 3, 2, 1, 1, 1, 3, 8, 16, 1, 1, 1, 1];
                 p.w_regmode = [2, 1, 8];
                 p.w_fresh_api = [1, 1, 8, 2];
                 p.max_init_regs = 10;
@@ -393,8 +397,8 @@ impl Profile
             "C07" | "C15" =>
             {
                 p.name = "lifetime";
-                p.w_top = [3, 2, 7, 7, 5, 5, 2, 5, 4, 2, 8, 3, 4, 3, 8, 14, 8, 1, 4, 0];
-                p.w_script = [5, 3, 8, 8, 5, 5, 2, 5, 4, 2, 7, 3, 4, 3, 3, 6, 8, 1, 3, 1];
+                p.w_top = [3, 2, 7, 7, 5, 5, 2, 5, 4, 2, 8, 3, 4, 3, 8, 14, 8, 1, 4, 0, 1];
+                p.w_script = [5, 3, 8, 8, 5, 5, 2, 5, 4, 2, 7, 3, 4, 3, 3, 6, 8, 1, 3, 1, 1];
                 p.w_regmode = [2, 5, 5];
                 p.w_key = [4, 3, 5, 3, 3, 4, 4, 4, 4, 3, 8];
                 p.max_bundle = 4;
@@ -404,8 +408,8 @@ impl Profile
             "C08" =>
             {
                 p.name = "removals";
-                p.w_top = [3, 2, 4, 4, 10, 3, 1, 14, 2, 1, 10, 2, 2, 5, 8, 8, 3, 1, 8, 0];
-                p.w_script = [5, 3, 5, 5, 10, 3, 1, 14, 2, 1, 9, 2, 2, 5, 3, 3, 3, 1, 7, 1];
+                p.w_top = [3, 2, 4, 4, 10, 3, 1, 14, 2, 1, 10, 2, 2, 5, 8, 8, 3, 1, 8, 0, 1];
+                p.w_script = [5, 3, 5, 5, 10, 3, 1, 14, 2, 1, 9, 2, 2, 5, 3, 3, 3, 1, 7, 1, 1];
                 p.w_key = [2, 2, 2, 2, 2, 12, 2, 2, 10, 2, 10];
                 p.p_no_settle = 150;
                 p.p_via_system = 90;
@@ -416,8 +420,8 @@ impl Profile
             {
                 p.name = "sequences";
                 p.max_top = 18;
-                p.w_top = [10, 10, 8, 8, 4, 4, 2, 3, 3, 2, 4, 6, 2, 1, 6, 6, 3, 1, 2, 0];
-                p.w_script = [12, 12, 8, 8, 4, 4, 2, 3, 3, 2, 4, 8, 2, 1, 3, 3, 3, 1, 2, 1];
+                p.w_top = [10, 10, 8, 8, 4, 4, 2, 3, 3, 2, 4, 6, 2, 1, 6, 6, 3, 1, 2, 0, 3];
+                p.w_script = [12, 12, 8, 8, 4, 4, 2, 3, 3, 2, 4, 8, 2, 1, 3, 3, 3, 1, 2, 1, 3];
                 p.p_self = 110;
                 p.w_result = [4, 4, 2];
                 p.p_err = 70;
@@ -425,8 +429,8 @@ impl Profile
             "C18" =>
             {
                 p.name = "stale";
-                p.w_top = [8, 8, 6, 8, 7, 6, 4, 4, 2, 1, 12, 12, 2, 2, 8, 8, 6, 1, 4, 0];
-                p.w_script = [8, 8, 6, 8, 7, 6, 4, 4, 2, 1, 12, 12, 2, 2, 4, 4, 6, 1, 4, 1];
+                p.w_top = [8, 8, 6, 8, 7, 6, 4, 4, 2, 1, 12, 12, 2, 2, 8, 8, 6, 1, 4, 0, 3];
+                p.w_script = [8, 8, 6, 8, 7, 6, 4, 4, 2, 1, 12, 12, 2, 2, 4, 4, 6, 1, 4, 1, 3];
                 p.hot_entities = 2;
                 p.max_entities = 3;
             }
@@ -583,6 +587,7 @@ impl<'a, 'p> Dec<'a, 'p>
             OPK_REVOKE => Op::Revoke(self.below(6) as u8),
             OPK_AUTODESPAWN => Op::AutoDespawn(self.entity()),
             OPK_RUNMANY => { let s = self.sysref(own); Op::RunMany(s, self.below(3) as u8) }
+            OPK_SYSEV_ENT => { let e = self.entity(); Op::SysEventToEntity(e, self.evty()) }
             _ => Op::Probe(self.chance(80)),
         }
     }
